@@ -45,6 +45,12 @@ SbRelCells(t, u, added, dr) ==                                   \* same, compar
   ELSE IF ~dr.known THEN Len(SB(u)) <= Len(want) /\ CellsOf(SB(u)) = LastN(want, Len(SB(u)))
   ELSE CellsOf(dr.lines \o SB(u)) = want
 
+(* "Wrap pending" is defined PUBLICLY: the cursor column equals cols (C02: that  *)
+(* column is reached only by printing in the last column with auto-wrap on).  The  *)
+(* hidden pending_wrap flag must agree with it (checked separately as a design     *)
+(* invariant), but the properties are judged on what a user can see.               *)
+Pending(t) == t.col >= t.cols
+
 \* ------------------------------------------------------------------------ C05
 TabsAfter(t, col) == {i \in 1..Len(t.tabs) : t.tabs[i] > col}
 TabsBefore(t, col) == {i \in 1..Len(t.tabs) : t.tabs[i] < col}
@@ -70,13 +76,13 @@ CursorTarget(t, fn) ==
   CASE f = "Cuu" -> <<inCol, UpTo(t, NN(a[1])), FALSE>>
     [] f \in {"Cud", "Vpr"} -> <<inCol, DownTo(t, NN(a[1])), FALSE>>
     [] f = "Cuf" -> <<ClampCol(t, t.col + NN(a[1])), t.row, FALSE>>
-    [] f = "Cub" -> <<ClampCol(t, t.col - NN(a[1]) - (IF t.pw THEN 1 ELSE 0)), t.row, FALSE>>
+    [] f = "Cub" -> <<ClampCol(t, t.col - NN(a[1]) - (IF Pending(t) THEN 1 ELSE 0)), t.row, FALSE>>
     [] f = "Cnl" -> <<0, DownTo(t, NN(a[1])), FALSE>>
     [] f = "Cpl" -> <<0, UpTo(t, NN(a[1])), FALSE>>
     [] f = "Cha" -> <<ClampCol(t, NN(a[1]) - 1), t.row, FALSE>>
     [] f = "Vpa" -> <<inCol, AbsRow(t, NN(a[1])), FALSE>>
     [] f = "Cup" -> <<ClampCol(t, NN(a[2]) - 1), AbsRow(t, NN(a[1])), FALSE>>
-    [] f = "Bs" -> <<ClampCol(t, t.col - (IF t.pw THEN 2 ELSE 1)), t.row, FALSE>>
+    [] f = "Bs" -> <<ClampCol(t, t.col - (IF Pending(t) THEN 2 ELSE 1)), t.row, FALSE>>
     [] f = "Cr" -> <<0, t.row, FALSE>>
     [] f = "Ht" -> <<ClampCol(t, NthAfter(t, t.col, 1)), t.row, FALSE>>
     [] f = "Cht" -> <<ClampCol(t, NthAfter(t, t.col, NN(a[1]))), t.row, FALSE>>
@@ -157,7 +163,7 @@ ScrollFnOK(t, fn, u, dr) ==
 PrintOK(t, ch, u, dr) ==
   LET g == Translate(IF t.gl = 0 THEN t.g0 ELSE t.g1, ch)
       cell == <<g, t.pen>>
-      wrapDue == t.autowrap /\ t.pw
+      wrapDue == t.autowrap /\ Pending(t)
       scrolls == wrapDue /\ t.row = t.bottom
       moves == wrapDue /\ t.row # t.bottom /\ t.row < t.rows - 1
       lrow == IF moves THEN t.row + 1 ELSE t.row                       \* landing row (after a scroll: same index)
